@@ -98,14 +98,61 @@ theorem range_two_pow_succ (k : Nat) : List.range (2 ^ (k + 1)) = List.range (2 
   apply List.map_congr_left
   intro a _; omega
 
+/-- the input columns that hold `X`, in increasing order, columns counted from `c` -/
+def inputXColsFrom (tc : TestCase) : List REntry → Nat → List Nat
+  | [], _ => []
+  | e :: es, c => if isInputX tc c e then c :: inputXColsFrom tc es (c + 1) else inputXColsFrom tc es (c + 1)
+
+theorem inputXCols_none : ∀ (es : List REntry) (c : Nat), numInputXFrom tc es c = 0 → inputXColsFrom tc es c = []
+  | [], c, _ => rfl
+  | e :: es, c, h => by
+    simp only [numInputXFrom] at h
+    by_cases hx : isInputX tc c e = true
+    · simp [hx] at h
+    · have hx' : isInputX tc c e = false := by simpa using hx
+      simp only [hx', Bool.false_eq_true, if_false, Nat.zero_add] at h
+      simp only [inputXColsFrom, hx', Bool.false_eq_true, if_false]
+      exact inputXCols_none es (c + 1) h
+
+/-- taking the right-most input `X` away removes the last of the `X` columns -/
+theorem inputXCols_set_last : ∀ (es : List REntry) (c i : Nat) (v : Int64), lastInputXFrom tc es c = some i →
+    inputXColsFrom tc es c = inputXColsFrom tc (es.set (i - c) (.num v)) c ++ [i]
+  | [], c, i, v, h => by simp [lastInputXFrom] at h
+  | e :: es, c, i, v, h => by
+    simp only [lastInputXFrom] at h
+    cases h' : lastInputXFrom tc es (c + 1) with
+    | some j =>
+      rw [h'] at h; cases h
+      obtain ⟨h1, _, _⟩ := lastX_some tc es (c + 1) i v h'
+      have ih := inputXCols_set_last es (c + 1) i v h'
+      have : i - c = (i - (c + 1)) + 1 := by omega
+      rw [this]
+      simp only [List.set_cons_succ, inputXColsFrom]
+      split
+      · rw [ih]; rfl
+      · exact ih
+    | none =>
+      rw [h'] at h
+      by_cases hx : isInputX tc c e = true
+      · simp only [hx, if_true, Option.some.injEq] at h
+        subst h
+        have h0 := (lastX_none_iff tc es (c + 1)).mp h'
+        have hnv : isInputX tc c (.num v) = false := by simp [isInputX]
+        simp only [Nat.sub_self, List.set_cons_zero, inputXColsFrom, hx, hnv, if_true, Bool.false_eq_true, if_false,
+          inputXCols_none tc es (c + 1) h0]
+        rfl
+      · simp [hx] at h
+
 /-- **Closed form of the expansion**: a row with `k` `X`s in input columns stands for its `2^k`
 assignments in numerical order, assignment `j` giving the `t`-th such column from the left bit `t`
 of `j` (so the left-most varies fastest, `0` before `1`), each executed as its clock triple. -/
 theorem expR_closed : ∀ (k : Nat) (r : CRow), numInputX tc r.entries = k →
-    expR tc k r = (List.range (2 ^ k)).flatMap (fun j => tripleOf tc { r with entries := assignFrom tc r.entries 0 j })
+    expR tc k r = (List.range (2 ^ k)).flatMap (fun j => tripleOf tc
+      { r with entries := assignFrom tc r.entries 0 j, xcols := inputXColsFrom tc r.entries 0 ++ r.xcols })
   | 0, r, h => by
     simp only [expR, Nat.pow_zero, List.range_one, List.flatMap_cons, List.flatMap_nil, List.append_nil]
-    rw [assignFrom_noX tc r.entries 0 0 h]
+    rw [assignFrom_noX tc r.entries 0 0 h, inputXCols_none tc r.entries 0 h]
+    rfl
   | k+1, r, h => by
     have hne : lastInputX tc r.entries ≠ none := by
       intro h0; have := (lastX_none_iff tc r.entries 0).mp h0
@@ -127,14 +174,18 @@ theorem expR_closed : ∀ (k : Nat) (r : CRow), numInputX tc r.entries = k →
         have hj' : j < 2 ^ k := List.mem_range.1 hj
         have := assignFrom_split tc r.entries 0 i j 0 hx (by omega) (by rw [hm]; exact hj')
         simp only [Nat.zero_mul, Nat.add_zero, Nat.sub_zero] at this
+        have hxc := inputXCols_set_last tc r.entries 0 i 0 hx
+        simp only [Nat.sub_zero] at hxc
         simp only
-        rw [this]; rfl
+        rw [this, hxc, List.append_assoc]; rfl
       · apply flatMap_congr'
         intro j hj
         have hj' : j < 2 ^ k := List.mem_range.1 hj
         have := assignFrom_split tc r.entries 0 i j 1 hx (by omega) (by rw [hm]; exact hj')
         simp only [Nat.one_mul, Nat.sub_zero, hm] at this
+        have hxc := inputXCols_set_last tc r.entries 0 i 1 hx
+        simp only [Nat.sub_zero] at hxc
         simp only
-        rw [this]; rfl
+        rw [this, hxc, List.append_assoc]; rfl
 
 end Dtr
